@@ -1,13 +1,26 @@
 """C01 - dictable behaves as a rectangular list of records.
 
-Representation invariant  wf(d, n): every column is a list of length n.  Functions under contract (real source):
+Representation invariant  wf(d, n): every column is a list of length n (pyvc/th_tables.py); records, lists of records, plain dicts of columns and the
+constructor live in pyvc/th_tables2.py.  Functions under contract (real source, re-read on every run):
   dictable.__setitem__   fits / first column of an empty table / length-1 broadcast keep wf; a misfit raises ValueError before anything is stored
-  dictable.__len__, shape
-  dictable.get           the column, or `[default] * len(self)`
-  dictable.__getitem__   integer row access: d[i][c] == d[c][i] for every column c (row = dict comprehension over the columns)
-Callee contracts: lens (proved on its body in C19), _value / as_list identity on lists (C19).
-Everything else named in the property (construction forms, masks, integer lists, slices, concat, relabel, do, derived columns, whole
-operation histories, operands unchanged) is covered by the bounded stand-in rac/C01.py only.
+  dictable.__len__, shape, get (the column, or `[default] * len(self)`)
+  dictable.__iter__      (generator: the loop appends every yielded value to a ghost list) one Dict per row, in order, column -> cell
+  dictable.__getitem__   int: d[i][c] == d[c][i];  list of booleans (one per row; also the empty list): all columns, count_true(mask) rows, the row of true
+                         entry i at position count_true(mask, i) - with the induction lemmas about count_true: exactly the rows whose entry is true, in order
+                         (this is the MASK contract of C06);  slice: every column cut by the same slice, row j of the result is one table row in every column;
+                         column name: the stored column / KeyError;  tuple of 1..3 names: the list of the rows' key tuples (the projection _listby takes as
+                         callee contract);  list of names: exactly these columns, as they were (through dictattr.__getitem__ and the keyword constructor)
+  dictable.__init__      with _data_columns_as_dict, _value, as_list inlined: from a dict of equally long lists, from keyword columns, from ([], column names),
+                         from a list of records (dict_concat by contract), from nothing
+  dict_concat            whole body: no record, one record, records with one key set (sorted items / transpose / zip), several key sets (union, d.get)
+  dictattr.__delitem__, dictable.__delattr__, dictattr.__sub__   the named column goes, the others are untouched, the table stays rectangular
+  dictable.__add__ / concat for two tables   union of the columns, rows of the left operand then of the right one, in order, None for a column an operand lacks
+  dictable.update        loop over __setitem__ with the invariant "keys passed are stored, the rest is as before" (values that fit)
+Callee contracts: lens, zipper, as_list on lists (proved in C19); __setitem__ inside update, __iter__ / the constructor / dict_concat / dictable.get inside the
+selection forms and concat (proved here, section named in each use text).
+Still bounded only (rac/C01.py): the list-of-integers form (constructor from rows + headers), scalar / length-1 broadcast on construction, DataFrame / path inputs,
+relabel, do, derived columns, concat of more than two tables, and the induction over whole operation histories (each proved operation keeps wf and agrees with the
+list-of-records model clause by clause; chaining them is an argument, not a solver step).
 """
 import ast
 import z3
@@ -681,7 +694,7 @@ def build(ctx):
     ctx.guarded('__add__', lambda: concat_obligations(ctx, m))
     ctx.guarded('constructor', lambda: constructor_obligations(ctx, m))
     ctx.guarded('dict_concat', lambda: dict_concat_obligations(ctx, m))
-    ctx.trust('rectangularity of tables produced by operations other than __setitem__ (constructor forms, masks, concat, ...) is checked by the bounded stand-in only')
+    ctx.trust('the induction over operation histories (every proved operation keeps wf and its model clause; chaining is an argument) and the operations listed as bounded only in the module docstring')
 
     # ------------------------------------------------------------------ frame: operations that return a new object never alter their operands
     def frame_section():
